@@ -335,7 +335,7 @@ func genScenario(r *common.Rand, idx int) *Scenario {
 	sc.Tamper = r.Chance(1, 3)
 	sc.ReproPair = r.Chance(1, 2)
 	big := idx%16 == 3
-	bad := r.Chance(1, 10)
+	bad := r.Chance(1, 7)
 	nItems := 1 + r.Intn(4)
 	used := map[string]bool{}
 	var trees []*Node
@@ -1165,6 +1165,10 @@ func runScenario(sc *Scenario) {
 				if unixMode(fi.Mode()) != it.Tree.Mode&^umask && unixMode(fi.Mode()) != it.Tree.Mode {
 					run.Count("plain-file-mode-not-carried")
 				}
+				h := sha256.Sum256(data)
+				fid := run.NewID()
+				run.Case(fid, fmt.Sprintf("F %d %s %s%s", sc.Umask, nameComps(name), contentHash(it.Tree.Seed, it.Tree.Len), tail),
+					fmt.Sprintf("FILE %o %s", unixMode(fi.Mode()), hex.EncodeToString(h[:])))
 			} else {
 				run.Count("skipunpack-blob")
 			}
@@ -1186,7 +1190,7 @@ func runScenario(sc *Scenario) {
 				}
 			}
 			if ndirs == 1 {
-				run.Case(id, input, strings.SplitN(errClass(cerr), ":", 2)[0])
+				run.Case(id, input, fmt.Sprintf("B%d ", b2i(isBenign))+strings.SplitN(errClass(cerr), ":", 2)[0])
 				run.Nontrivial(input)
 			}
 			continue
@@ -1199,7 +1203,7 @@ func runScenario(sc *Scenario) {
 			fail(id, "snapshot", err.Error())
 			continue
 		}
-		run.Case(id, input, "OK "+listing(got))
+		run.Case(id, input, fmt.Sprintf("B%d OK ", b2i(isBenign))+listing(got))
 		run.Nontrivial(listing(got))
 		if len(run.Samples) < 5 && len(got) > 3 {
 			run.Sample(map[string]any{"name": name, "umask": fmt.Sprintf("%03o", sc.Umask), "preserve": sc.Preserve, "via": sc.Via, "restored": listing(got)})
